@@ -37,6 +37,7 @@ from happysimulator.components.sync.mutex import Mutex
 from happysimulator.core.clock import Clock
 from happysimulator.core.entity import Entity
 from happysimulator.core.event import Event
+from happysimulator.core.sim_future import SimFuture
 
 logger = logging.getLogger(__name__)
 
@@ -150,21 +151,17 @@ class Condition(Entity):
         self._waits += 1
         enqueue_time = self._clock.now.nanoseconds if self._clock else 0
 
-        # Set up wakeup callback
-        woken = [False]
-
-        def on_wake():
-            woken[0] = True
-
-        waiter = _Waiter(callback=on_wake, enqueue_time_ns=enqueue_time)
+        # Park on a future that notify()/notify_all() resolves (no events while waiting)
+        woken = SimFuture()
+        waiter = _Waiter(callback=woken.resolve, enqueue_time_ns=enqueue_time)
         self._waiters.append(waiter)
 
         # Release the mutex (this may wake other waiters on the mutex)
         self._lock.release()
 
         # Wait for signal
-        while not woken[0]:
-            yield 0.0
+        while not woken.is_resolved:
+            yield woken
 
         # Reacquire the mutex
         yield from self._lock.acquire()
